@@ -138,7 +138,7 @@ def check_basic_uniqueness(ctx, P):
         srcs = [R.covers_all(sr, "pks") for _, sr in R.loop_sources(f)]
         ctx.ob("E4.unique", fk + "/insert", from_elem and every and controls and srcs == ["all"], "uniqueness by %s: key from the entry=%s, executed every iteration=%s, outcome controls an Err exit=%s, loop covers %s; key = %s" % (s.callee[0], from_elem, every, controls, srcs, B.show_nf(key_nf)), where=where(f, b), sample={"key": B.show_nf(key_nf)})
         # the key is the message alone (not the public key, not the index)
-        msg_only = len(key_nf) == 1 and key_nf[0][0] == "v"
+        msg_only = _key_is_message(key_nf)
         ctx.ob("E4.unique", fk + "/key", msg_only, "set key is exactly the entry's message bytes: %s" % B.show_nf(key_nf), where=where(f, b), weak=not msg_only and B.is_strong(key_nf) is False)
     elif any(s.callee[0].endswith("::entry") and s.callee[0].split("::")[0] in ("HashMap", "BTreeMap") for _, s in ev.sites.items()):
         # Entry API: match map.entry(key) { Occupied(_) => return Err(..), Vacant(v) => { v.insert(..); } }
@@ -155,12 +155,77 @@ def check_basic_uniqueness(ctx, P):
         controls = any(esw and not (esw & vsw) for esw in (entry_switch(e) for e in errs))
         srcs = [R.covers_all(sr, "pks") for _, sr in R.loop_sources(f)]
         ctx.ob("E4.unique", fk + "/insert", from_elem and every and recorded and controls and srcs == ["all"], "uniqueness by the map Entry API: key from the entry=%s, looked up every iteration=%s, vacant slot filled before the next iteration=%s, the other (occupied) arm leaves through Err=%s, loop covers %s; key = %s" % (from_elem, every, recorded, controls, srcs, B.show_nf(key_nf)), where=where(f, b), sample={"key": B.show_nf(key_nf)})
-        msg_only = len(key_nf) == 1 and key_nf[0][0] == "v"
+        msg_only = _key_is_message(key_nf)
         ctx.ob("E4.unique", fk + "/key", msg_only, "map key is exactly the entry's message bytes: %s" % B.show_nf(key_nf), where=where(f, b), weak=not msg_only and B.is_strong(key_nf) is False)
     elif dd:
         b, s = dd[0]
         sorted_first = any(cfg.dominates(sb, b) for sb, _ in sorts)
         ctx.ob("E4.unique", fk + "/dedup", sorted_first and bool(errs), "uniqueness by dedup: %s" % ("preceded by a sort" if sorted_first else "`dedup` only removes ADJACENT duplicates and the list is not sorted first"), where=where(f, b))
+    elif _pipeline_uniqueness(ctx, P, f, ev, fk):
+        pass
     else:
         ctx.ob("E4.unique.anchor", fk, False, "no message-uniqueness mechanism (set/map insert, or sort+dedup) found in the Basic aggregate_verify (missing anchor)", where=where(f))
     F.check_no_dropping_adapters(ctx, "E7.adapters", P, [fk], allow={})
+
+
+
+_BYTES_IDENTITY = ("slice::<impl [T]>::to_vec", "ToOwned::to_owned", "Clone::clone", "AsRef::as_ref", "Deref::deref", "Borrow::borrow", "Into::into", "From::from", "Vec::<T, A>::as_slice", "Cow::<'_, B>::into_owned", "Box::<T>::from", "Iterator::collect", "slice::<impl [T]>::iter", "Iterator::copied", "Iterator::cloned", "IntoIterator::into_iter", "Vec::<T>::from_iter", "FromIterator::from_iter", "slice::<impl [T]>::into_vec")
+_INJECTIVE = ("hex::encode", "encode", "Digest::digest", "digest")
+
+
+def _key_is_message(key_nf):
+    """The uniqueness key denotes the message's bytes themselves (copied, borrowed, collected), or an injective /
+    collision-resistant image of them (hex, a digest) - not a lossy function of them (`from_utf8_lossy`, a prefix,
+    a length, a checksum), which would call two different messages equal."""
+    if not (len(key_nf) == 1 and key_nf[0][0] == "v"):
+        return False
+    t = B.peel(key_nf[0][1])
+    for _ in range(12):
+        if t.op == "call" and len(t.a[1]) >= 1 and (B.cname(t) in _BYTES_IDENTITY or B.cname(t).split("::")[-1] in _INJECTIVE):
+            t = B.peel(t.a[1][0])
+            continue
+        break
+    while t.op in ("field", "downcast", "ref", "deref"):
+        t = t.a[0]
+    return t.op == "param" or (t.op == "call" and B.cname(t) == "Iterator::next") or t.op == "loop"
+
+
+def _pipeline_uniqueness(ctx, P, f, ev, fk):
+    """The insert lives in the closure of an iterator pipeline: `pks.enumerate().map(|(i, (pk, m))| match seen.insert(m, i)
+    { Some(_) => Err(..), None => Ok(..) }).collect::<Result<_, _>>()?` (or try_for_each / try_fold).  Same obligations as
+    for the loop: key from the element and the message alone, insert on every way through the closure, a hit leaves the
+    closure through Err, the pipeline runs over the whole list and its Err is propagated."""
+    for b, s in sorted(ev.sites.items()):
+        if s.callee[0] not in ("Iterator::map", "Iterator::try_for_each", "Iterator::try_fold", "Iterator::for_each"):
+            continue
+        clo = B.peel(s.args[-1])
+        if not (clo.op == "agg" and clo.a[0][0] == "closure"):
+            continue
+        g = P.fns.get(clo.a[0][1])
+        if g is None:
+            continue
+        gev = evaluate(g)
+        ins = [(gb, gs) for gb, gs in sorted(gev.sites.items()) if gs.callee[0] in SET_INSERTS]
+        if not ins:
+            continue
+        gb, gs = ins[0]
+        key = strip_sites(gs.args[1])
+        key_nf = B.nf(gev, gs.args[1])
+        from_elem = any(x.op == "param" and x.a[0] >= 2 for x in subterms(key))
+        every = bool(gev.ret_at) and all(g.cfg.dominates(gb, rb) for rb in gev.ret_at)
+        controls = False
+        for e in R.err_blocks(g):
+            for atom, pol in G.path_literals(gev, e, P, checks_only=True):
+                if any(isinstance(x, type(key)) and any(y.op == "call" and B.cname(y) in SET_INSERTS for y in subterms(x)) for x in atom[2:3]):
+                    controls = True
+        src = R.covers_all(strip_sites(s.args[0]), "pks")
+        # the pipeline's verdict is propagated: its value (or a collect of it) is what a `?` of f branches on
+        sv = strip_sites(s.value)
+        propagated = s.callee[0] != "Iterator::map" or any(d is not None and strip_sites(d).op == "discr" and any(x == sv for x in subterms(strip_sites(d))) and any(x.op == "call" and B.cname(x) == "Iterator::collect" and str(x.a[0][1][-1] if x.a[0][1] else "").startswith("Result<") for x in subterms(strip_sites(d))) for d in ev.switch.values())
+        if s.callee[0] != "Iterator::map":
+            propagated = any(d is not None and any(x == sv for x in subterms(strip_sites(d))) for d in ev.switch.values())
+        ctx.ob("E4.unique", fk + "/insert", from_elem and every and controls and src == "all" and propagated, "uniqueness by %s inside the closure of %s: key from the entry=%s, on every way through the closure=%s, a hit leaves through Err=%s, pipeline covers %s, its Err is propagated=%s; key = %s" % (gs.callee[0], s.callee[0], from_elem, every, controls, src, propagated, B.show_nf(key_nf)), where=where(g, gb), sample={"key": B.show_nf(key_nf)})
+        msg_only = _key_is_message(key_nf)
+        ctx.ob("E4.unique", fk + "/key", msg_only, "set key is exactly the entry's message bytes: %s" % B.show_nf(key_nf), where=where(g, gb), weak=not msg_only and B.is_strong(key_nf) is False)
+        return True
+    return False
